@@ -40,11 +40,15 @@ NSucc(v) ==
   \cup (IF FpMode THEN
              {X("SetPort", [x EXCEPT !.port = p]) : p \in {<<49>>, <<56,49>>, <<56,48,56,48>>, <<54,53,53,51,53>>, <<52,52,51>>}}
         \cup {X("FlipCase", [x EXCEPT !.upc = IF c \in x.upc THEN x.upc \ {c} ELSE x.upc \cup {c}]) : c \in {"path", "query", "frag"}}
+        \cup (IF x.sfx = <<>> /\ SufLenHost(B.host) > 0 /\ Len(B.host) > SufLenHost(B.host)
+                 /\ B.host[Len(B.host) - SufLenHost(B.host)] \notin {<<121,111,117,116,117,98,101>>, <<102,97,99,101,98,111,111,107>>}
+              THEN {X("SwapSuffix", [x EXCEPT !.sfx = sf, !.sfk = SufLenHost(B.host)]) : sf \in ToSet(ND.suffixes) \ {SubSeq(B.host, Len(B.host) - SufLenHost(B.host) + 1, Len(B.host))}}
+              ELSE {})
         \cup (IF x.sub = <<>> /\ ~x.ampdash /\ Len(B.host) >= 2 THEN {X("AddLangLabel", [x EXCEPT !.sub = <<l>>]) : l \in LangLabels} ELSE {})
         ELSE {})
 NRewriteKinds == RewriteKinds \cup {"ChangeScheme", "AddUserinfo", "AddIrrelevantLabel", "AmpDashPrefix", "ToggleTrailingSlash",
                                     "AppendIndex", "AddPlainFragment", "InsertTracking", "PermuteQuery", "AmpEntity",
-                                    "SetPort", "FlipCase", "AddLangLabel"}
+                                    "SetPort", "FlipCase", "AddLangLabel", "SwapSuffix"}
 RECURSIVE NReach(_, _)
 NReach(S, d) == IF d = 0 THEN S ELSE NReach(S \cup UNION {{s.v : s \in NSucc(v)} : v \in S}, d - 1)
 =============================================================================
